@@ -30,8 +30,8 @@ def tests(wt):
 
 
 def demo(wt, path):
-    r = sh("cd /tmp && PYTHONPATH=%s PYTHONHASHSEED=0 /venv/bin/python %s 2>&1 | tail -5" % (wt, path), timeout=900)
-    return r.returncode, r.stdout.strip()
+    r = sh("cd /tmp && PYTHONPATH=%s PYTHONHASHSEED=0 /venv/bin/python -W ignore %s 2>&1" % (wt, path), timeout=900)
+    return r.returncode, r.stdout.strip()[-600:]
 
 
 def confirm(d):
